@@ -44,7 +44,35 @@ CLAIMED = {
  "C10": ("typed decorator-chain check + must-pass facts on every path to next() + per-mode admission path search + extraction of the name predicate and evaluation over every registered Msg type of the app's import closure",
          "ante chain composition and installation; StdTx/memo/one-signer/timeout guards; in each of the five execution modes a message reaches next() only through relayerTxOnly (or the exact MsgNewEthBlock name with timeout == height in block modes); relayerTxOnly = namespace prefix + signer equals current relayer proposer; the predicate admits exactly the repository's bitcoin/relayer messages (administration messages found and rejected); admitted handlers bind the proposer before any write",
          "signature/sequence decorator internals (SDK)"),
+ "C11": ("who-may-write on holdings/Slashed + canonical-expression pairing of the amounts taken and credited (SSA value provenance) + loop must-execute",
+         "holdings are written only by lock/unlock/slash; unlock queues and subtracts the same value, which is min(requested, held); lock adds exactly the aggregated request; each slash credits Slashed[denom] with previous + exactly what leaves the holding (all of it when the truncated fraction is zero), for every coin, with the right fraction per offence",
+         "the global conservation identity over histories, non-negativity for all amounts"),
+ "C12": ("canonical-expression pairing of pool/remainder/share values + resolved rounding-mode of every LegacyDec operation on the share path + who-may-write",
+         "the block reward moved into distribution equals what leaves the grant and is min(remaining, halved reward); each share is floor(pool x previous-block power / total) with round-down operations only, the same value is credited to the validator and subtracted from the remainder that is stored back; claim queues the accrued amounts read before the reset and stores record and queue",
+         "the emission numbers, proportionality beyond rounding direction, non-negativity over histories"),
+ "C13": ("validator-status typestate (current and as-loaded) at every ranking/locking-index effect site + path searches for remove-before-change + positive-power guard facts",
+         "ranking inserts use the record's current power, only for Pending/Active records and only under power > 0; power changes and status writes leaving {Pending,Active} of possibly-ranked records are preceded by removal of the loaded ranking entry; the locking index is written only for Pending/Active records and fully cleared when a record leaves them; EndBlocker reports the loaded record's power, mirrors it in ValidatorSet and bounds the walk by MaxValidators",
+         "top-K optimality over histories, ties, total-power overflow, store errors"),
+ "C14": ("enum typestate over Validator.Status in every locking function + must-pass guard facts at transitions",
+         "the status transition relation equals the allowed one (nothing leaves Tombstoned; Inactive only to Tombstoned); unjail only after the jail time with all thresholds met; jail only under the missed-blocks guard with power 0, jail time and downtime slash; only Active validators are counted; the signing window is reset on (re)activation or jail; evidence is ignored only when both age limits are exceeded; locks never touch dead validators",
+         "window arithmetic across boundaries, exactly-once over time beyond the typestate argument"),
+ "C15": ("phi-edge provenance of the maturity key + typestate/effect-site checks on the exiting branch + rendered-value checks of the sweep",
+         "maturity = block time + exit delay exactly when status is Inactive/Tombstoned or the remainder falls below the threshold, else + unlock delay; the entry written is the stored entry for that instant extended by this unlock; exiting zeroes power, moves to Inactive, clears the locking index and never re-ranks; the sweep covers (-inf, block time], removes every visited key, appends every visited unlock once in order and stores the queue",
+         "time arithmetic, delivery caps over histories"),
+ "C16": ("must-pass proof facts before any write in NewVoter + voter-status typestate with queue pairing + relational guard on the remaining-member count + election path searches",
+         "a voter joins only after both proofs over the same registration sign doc bound to chain/epoch/proposer, with matching key hash and PENDING status; status transitions are the allowed ones and each boarding write is paired with one queue append; a removal is queued only if the remaining count stays >= 1; every election path increments the epoch once, stores the relayer, and replaces/swaps the proposer with a voter that leaves the voter list; applied queues are cleared and stored",
+         "election timing over block-time histories, randomness quality"),
+ "C17": ("sibling recipe extraction (canonical SSA expressions of builder vs verifier) + literal/guard facts + key-type matrix facts",
+         "for each key type and version the address builder and the script verifier derive the witness program / data script by the same recipe over the same argument roles; verifier literals match the address kind; v1 is ECDSA-only on both sides and deposit verification does not delegate to a helper with a different key matrix; the query dispatches versions like verification; DecodeBtcAddress passes network, IsForNet, p2pk rejection and PayToAddrScript",
+         "equivalence with btcd on all strings (library behaviour)"),
+ "C18": ("coverage analysis of keeper collections and GenesisState fields over Init/ExportGenesis (types + store call sites) + guard facts on derived-index rebuilds",
+         "every collection is exported and imported or is a derived index rebuilt on import; every GenesisState field is assigned on export and consumed on import; derived indices obey the runtime guards (ranked states, positive power, Active-only validator set, queue by voter status); the exported validator set is the recorded ValidatorSet with the validators' keys",
+         "equality of two exports, query equivalence (runtime)"),
+ "C19": ("reachability from errgroup closures and block hooks + must-pass nil/length guard facts + reviewed table of explicit block-hook failures tied to the C13/C16 invariants",
+         "outside the framework's panic recovery: the payload nil guard precedes both verification goroutines, every index/slice of proposed data in VerifyDequeue is dominated by its length guard, no unchecked type assertion or explicit panic is reachable from a goroutine; the explicit failure exits of begin/end-of-block code are exactly the reviewed ones and the invariants excluding them hold; no process-local state survives a failed tx",
+         "robustness against arbitrary bytes in general (decoders, dependencies) — a fuzzing property; panics inside handlers are recovered by baseapp and are rejections"),
 }
+
 
 
 NA_REASON = "check under construction in this round (static rules designed in DESIGN.md section 2, not yet wired)"
